@@ -144,18 +144,28 @@ def looped : Exp :=
 
 def nextIter : Comp := { stage := 1, name := 40, isDoc := false, opts := [(23, [.ch 121])], vars := [], ovr := [] }
 
-/-- the code that exists (known finding C07-stored-blueprints-reorder-layers): the experiment that holds the package
-description gives the new component the platform's value `4`, the experiment loaded from the stored description the
-default-stage value `2` — `bpOrderFree` is what `new_component_after_reload_partial` needs -/
+/-- the folding BEFORE fix 1b655bb (`flattenOld` / `reloadOld`: stored stage blueprint = default-stage + platform-stage
+only): the experiment that holds the package description gives the new component the platform's value `4`, the
+experiment loaded from the stored description the default-stage value `2` -/
 theorem stored_blueprints_swap_stage_and_platform_layers :
     resolves 4 looped.doc 1 = true ∧ bpClosed 4 looped.doc 1 1 = true ∧ bpOrderFree looped.doc 1 1 = false ∧
     get? (flatComp 4 (addIteration looped [nextIter]).doc 1 nextIter).opts 50 = some [.ch 52] ∧
-    get? (flatComp 4 (addIteration (reload 4 looped) [nextIter]).doc 1 nextIter).opts 50 = some [.ch 50] := by decide
+    get? (flatComp 4 (addIteration (reloadOld 4 looped) [nextIter]).doc 1 nextIter).opts 50 = some [.ch 50] := by decide
 
-/-- without the conflicting path the two agree (the theorem applies) -/
+/-- the code that exists (after the fix: the stored stage blueprint repeats the platform-global blueprint above a
+non-empty default-stage blueprint): the restarted experiment gives the platform's value `4` too — an instance of
+`C07.new_component_after_reload_partial` -/
+theorem stored_blueprints_keep_platform_global_above_default_stage :
+    get? ((layerOf (store 4 looped).bps 0).stage 1) 50 = some [.ch 52] ∧
+    get? (flatComp 4 (addIteration (reload 4 looped) [nextIter]).doc 1 nextIter).opts 50 = some [.ch 52] ∧
+    sameComp (flatComp 4 (addIteration (reload 4 looped) [nextIter]).doc 1 nextIter)
+      (flatComp 4 (addIteration looped [nextIter]).doc 1 nextIter) = true := by decide
+
+/-- on the other paths the two foldings agree -/
 theorem stored_blueprints_agree_elsewhere :
     get? (flatComp 4 (addIteration looped [nextIter]).doc 1 nextIter).opts 51 = some [.ch 101] ∧
-    get? (flatComp 4 (addIteration (reload 4 looped) [nextIter]).doc 1 nextIter).opts 51 = some [.ch 101] := by decide
+    get? (flatComp 4 (addIteration (reload 4 looped) [nextIter]).doc 1 nextIter).opts 51 = some [.ch 101] ∧
+    get? (flatComp 4 (addIteration (reloadOld 4 looped) [nextIter]).doc 1 nextIter).opts 51 = some [.ch 101] := by decide
 
 /-- NOT the code that exists: a store that leaves the blueprints out (`storeNoBlueprints`: "the components already
 have them folded in").  Right after the reload nothing differs — every existing component has the configuration it
